@@ -176,6 +176,10 @@ type Decorated struct {
 	// FieldN: another name for the int member of the %union (Go variants only; "" = n). Members of the
 	// union live next to the fields of the generated stack entry, so an everyday name must stay usable.
 	FieldN string
+	// InfFirst (TypeScript only): the lexer gives the first token the number Infinity, a value that does not
+	// survive a detour through text (JSON). All-int tags and the UseAll shape make it reach the result, which
+	// then is NaN; the runner reports a non-finite result as 0.
+	InfFirst bool
 }
 
 // Decorate returns a copy of s with union, tags, types and harness actions;
@@ -253,7 +257,11 @@ func (d *Decorated) Source(variant, pkg string) string {
 	s.Rules = append([]gram.Rule(nil), s.Rules...)
 	for i := range s.Rules {
 		if s.Rules[i].Action != "" {
-			s.Rules[i].Action = " /* action of rule " + fmt.Sprint(i+1) + " */" + s.Rules[i].Action + "/* end of action */ "
+			head := " /* action of rule " + fmt.Sprint(i+1) + " */"
+			if d.Shape == PlainCopy {
+				head = " /* action */" // these actions are meant to be the same text for many rules
+			}
+			s.Rules[i].Action = head + s.Rules[i].Action + "/* end of action */ "
 		}
 	}
 	if variant == TS {
@@ -478,6 +486,7 @@ const tsPrologue = `"use strict";
 
 func (d *Decorated) tsEpilogue() string {
 	var b strings.Builder
+	fmt.Fprintf(&b, "\nconst hxInfFirst = %v;\n", d.InfFirst)
 	b.WriteString("\n// ---- harness-owned epilogue ---- (this comment contains the section mark %% on purpose)\n")
 	b.WriteString("function tokCode(hxCh :number, hxPos :number) :number {\n\tswitch (hxCh) {\n\tcase 1: throw new Error(\"harness: the lexer gives up\");\n")
 	var codes []string
@@ -523,6 +532,7 @@ function GetToken(hxInput :string, model:{ValType :ValType, pos :number}) :numbe
 	let hxPos = model.pos;
 	model.pos++;
 	model.ValType.n = RT.tokN(hxCh, hxPos);
+	if (hxInfFirst && hxPos == 0) { model.ValType.n = Infinity; }
 	model.ValType.s = RT.tokS(hxCh, hxPos);
 	return tokCode(hxCh, hxPos);
 }
